@@ -49,6 +49,8 @@ def mc_configs(tier):
     c["stop_fail_ext"] = dict(BASE, NT=2, Kind="stop", MaxRuns=1, FailB=1, ExtB=1, EmptyExit=True, MaxFail=0)
     c["sync_sched"] = dict(BASE, NT=3, Kind="stop", MaxRuns=1, Async=False, FailB=0)
     c["wait_done"] = dict(BASE, NT=2, Kind="pause", Wait=True)
+    # the failure limit is exceeded while another trial is still running and the loop waits for it
+    c["wait_fail"] = dict(BASE, NT=3, Kind="stop", MaxRuns=1, Wait=True, FailB=2, MaxFail=0)
     c["crit_started"] = dict(BASE, NT=3, Kind="stop", MaxRuns=1, CKind="started", K=2, FailB=1)
     c["crit_completed"] = dict(BASE, NT=3, Kind="stop", MaxRuns=1, CKind="completed", K=0, FailB=1)
     c["crit_finished"] = dict(BASE, NT=3, Kind="stop", MaxRuns=1, CKind="finished", K=1, FailB=1, MaxFail=2)
